@@ -160,9 +160,20 @@ def check_grid(case):
     with loop_mode(ctx, "hooks"):
         outcome = run(ctx, consume())
         close_orphans(ctx)
-    close_unawaited(wrapped)
     expect_return(outcome, f"C19/{case['adapter']}")
     n = min(case["steps"], case["length"])
+    if case["container"] == "iter" and case["steps"] <= case["length"]:
+        # the caller's one-shot iterator was only advanced as far as the consumer asked: the awaitables behind
+        # that point are still in it, untouched (a coroutine among them has not been started or closed)
+        rest = list(container)
+        if len(rest) != case["length"] - n or any(x is not y for x, y in zip(rest, wrapped[n:])):
+            raise Violation(f"C19/{case['adapter']}/took-more-from-the-iterator-than-asked",
+                            f"{case}: {len(rest)} awaitables left, expected {case['length'] - n}")
+        touched = [k + n for k, w in enumerate(rest) if inspect.iscoroutine(w)
+                   and inspect.getcoroutinestate(w) != inspect.CORO_CREATED]
+        if touched:
+            raise Violation(f"C19/{case['adapter']}/touched-awaitables-nobody-asked-for", f"{case}: {touched}")
+    close_unawaited(wrapped)
     if len(got) != n or any(x is not y for x, y in zip(got, plain)):
         raise Violation(f"C19/{case['adapter']}/items-differ",
                         f"{case}: got {[getattr(x, 'uid', repr(x)[:40]) for x in got]} expected uids {list(range(n))}")
@@ -283,8 +294,8 @@ def check_apply(case):
 @st.composite
 def sync_cases(draw):
     flavour = draw(st.sampled_from(["def", "async", "partial", "obj", "obj-awaitable", "def-mixed", "class",
-                                    "class-async-call", "method", "async-method", "lambda-coro"]))
-    if flavour in ("def", "class", "class-async-call", "method"):
+                                    "class-async-call", "method", "async-method", "lambda-coro", "attribute"]))
+    if flavour in ("def", "class", "class-async-call", "method", "attribute"):
         kinds = st.sampled_from(["plain", "raise"])
     elif flavour == "def-mixed":
         kinds = st.sampled_from(["plain", "coroutine", "object", "raise", "suspending", "futurelike",
@@ -373,11 +384,22 @@ def check_sync(case):
             return await coro_fn(arg)
 
     holder = Holder()
-    target = {"class": Made, "class-async-call": MadeAsyncCall, "method": holder.method,
+    target = {"attribute": None, "class": Made, "class-async-call": MadeAsyncCall, "method": holder.method,
               "async-method": holder.amethod, "lambda-coro": lambda arg: coro_fn(arg),
               "def": plain_def, "def-mixed": plain_def, "async": coro_fn,
               "partial": functools.partial(coro_fn2, "x"), "obj": Obj(), "obj-awaitable": ObjAw()}[flavour]
-    wrapper = a.sync(target)
+    if flavour == "attribute":
+        # the wrapped function is stored on a class and called through an instance, like any plain function
+        def hook(self, arg):
+            return plain_def((self.tag, arg))
+
+        class Owner:
+            tag = "owner"
+            method = a.sync(hook)
+
+        wrapper = Owner().method
+    else:
+        wrapper = a.sync(target)
     if flavour in ("async", "partial", "async-method") and wrapper is not target:
         raise Violation("C19/sync/coroutine-function-not-returned-unchanged", flavour)
     for k, kind in enumerate(case["calls"]):
